@@ -8,6 +8,7 @@ RandID, FFT, PV_MagAbove, IFFT) and "Order of execution" (width-first units).
 A program is plain data:
   {'x': 1, 'name': str, 'params': 'none'|'gate'|'mixed', 'stmts': [stmt...],
    'outs': 'last'|'each'|'each1'|'list'|'gatebus'|'force_ar',
+   'outcls': 'Out'|'ReplaceOut'|'OffsetOut'|'XOut'|'LocalOut' (optional),
    'tagbase': int, 'fault': {...} (optional, see c02)}
 Statement k may refer to the values 'v<j>', j < k.  Every unit a statement
 creates carries the constant tag(k, s) = tagbase + 4k + s as one input, so the
@@ -38,6 +39,13 @@ statement that created a decoded unit can be read off the bytes.
   ['fft', b, x]          FFT(b, x, 0.5, 0, 1, tag)   width-first chain
   ['pv', c]              PV_MagAbove(c, tag)         width-first chain
   ['ifft', c]            IFFT.ar(c, 0, tag)          width-first 1 channel
+  ['bin', kind]          another bus reader, 2 channels (SoundIn: 1):
+                         InFeedback.ar(tag, 2) | LagIn.kr(tag, 2, tag+1) |
+                         InTrig.kr(tag, 2) | LocalIn.ar(2, tag) |
+                         LocalIn.kr(2, tag) | SoundIn.ar(tag)
+Output classes (InOut help files): Out/ReplaceOut/OffsetOut(bus, channels),
+XOut(bus, xfade, channels), LocalOut(channels); OffsetOut has no control-rate
+form.
 """
 
 import json
@@ -47,11 +55,24 @@ TAGSTEP = 4
 
 def param_spec(variant):
     """[(name, default or tuple, kind)] in argument order; 'arr<N>' is one
-    control-rate array parameter with N float32-exact defaults."""
+    control-rate array parameter with N float32-exact defaults ('lagarr<N>'
+    the same with a lag time, SynthDef(..., rates=[0.5])), 'named<N>' are N
+    single parameters p0..p<N-1> whose kinds cycle kr, ir, tr, ar.  A
+    default of None is not decided by the reference (don't-care)."""
     if variant.startswith('arr'):
         n = int(variant[3:])
         return [('freq', tuple((j + 1) * 0.25 for j in range(n)), 'kr')]
+    if variant.startswith('lagarr'):
+        n = int(variant[6:])
+        return [('freq', tuple((j + 1) * 0.25 for j in range(n)), 'kr')]
+    if variant.startswith('named'):
+        n = int(variant[5:])
+        return [(f'p{j}', (j + 1) * 0.25, NAMED_KINDS[j % 4])
+                for j in range(n)]
     return PARAMS[variant]
+
+
+NAMED_KINDS = ('kr', 'ir', 'tr', 'ar')
 
 
 PARAMS = {
@@ -60,7 +81,35 @@ PARAMS = {
     'gate': [('gate', 1.0, 'kr')],
     'mixed': [('freq', (0.5, 2.0, 4.0), 'kr'), ('gate', 1.0, 'kr'),
               ('t', 0.5, 'tr'), ('a', 0.25, 'ar'), ('i', 8.0, 'ir')],
+    # SynthDef(..., rates=[0.5, None, 0.125]): lagged control-rate parameters
+    'lag': [('freq', (0.5, 2.0, 4.0), 'kr'), ('gate', 1.0, 'kr'),
+            ('amp', 0.25, 'kr')],
+    # one lagged array parameter of 20 values (lag units hold 16 at most)
+    'lag20': [('freq', tuple((j + 1) * 0.25 for j in range(20)), 'kr')],
+    # graph(a=1, b: 'kr' = 2, c=3, d: 'ir' = 4, e: 'ar' = 5),
+    # rates=['ir', 'tr', 'ar', 'kr']: the rates argument overrides annotations
+    'rates': [('a', 1.0, 'ir'), ('b', 2.0, 'tr'), ('c', 3.0, 'ar'),
+              ('d', 4.0, 'kr'), ('e', 5.0, 'ar')],
+    # graph(x, y, freq=2, gate=1), prepend=[0.5, 7.0]: no control for x, y
+    'prepend': [('freq', 2.0, 'kr'), ('gate', 1.0, 'kr')],
+    # graph(gate=1) calling SynthDef.wrap(inner(z, freq=2, a: 'ar' = 0.25),
+    # rates=['ir'], prepend=[3.0])
+    'wrap': [('gate', 1.0, 'kr'), ('freq', 2.0, 'ir'), ('a', 0.25, 'ar')],
+    # controls made by hand inside the function (AbstractControl docstring)
+    'manual': [('freq', (0.5, 2.0), 'kr'), ('a', 0.25, 'ar'),
+               ('l', (4.0, 8.0), 'kr'), ('i', 0.125, 'ir')],
+    # graph(nd, n=None, b=True, k=3): missing / None -> 0, numbers as floats
+    'defaults': [('nd', 0.0, 'kr'), ('n', 0.0, 'kr'), ('b', 1.0, 'kr'),
+                 ('k', 3.0, 'kr')],
+    # graph(freq=None, amp=None, gate=1), metadata={'specs': {'freq': spec}}:
+    # the default of freq is not decided here
+    'specs': [('freq', None, 'kr'), ('amp', 0.0, 'kr'), ('gate', 1.0, 'kr')],
 }
+
+
+def has_gate(variant):
+    return any(name == 'gate' for name, _, _ in param_spec(variant))
+
 KIND_RATE = {'ir': 0, 'kr': 1, 'tr': 1, 'ar': 2}
 KIND_CLASS = {'ir': 'Control', 'kr': 'Control', 'tr': 'TrigControl',
               'ar': 'AudioControl'}
@@ -68,11 +117,16 @@ RATE_NAME = {0: 'scalar', 1: 'control', 2: 'audio', 3: 'demand'}
 
 CONTROL_CLASSES = {'Control', 'TrigControl', 'AudioControl', 'LagControl'}
 ARITH = {'BinaryOpUGen', 'UnaryOpUGen', 'MulAdd', 'Sum3', 'Sum4'}
-PURE = {'SinOsc', 'LPF', 'DC'} | ARITH
+PURE = {'SinOsc', 'LPF', 'DC', 'NumOutputBuses'} | ARITH
 WIDTH_FIRST = {'RandSeed', 'RandID', 'LocalBuf', 'SetBuf', 'ClearBuf', 'FFT',
                'PV_MagAbove', 'IFFT'}
 # number of outputs by class where the class fixes it
+OUT_FIXED = {'Out': 1, 'ReplaceOut': 1, 'OffsetOut': 1, 'LocalOut': 0,
+             'XOut': 2}
+IN_CLASSES = {'In', 'LocalIn', 'LagIn', 'InFeedback', 'InTrig'}
 NOUT = {'SinOsc': 1, 'LFNoise0': 1, 'LPF': 1, 'Pan2': 2, 'Out': 0,
+        'ReplaceOut': 0, 'OffsetOut': 0, 'LocalOut': 0, 'XOut': 0,
+        'NumOutputBuses': 1,
         'RandSeed': 1, 'RandID': 1, 'LocalBuf': 1, 'SetBuf': 1, 'ClearBuf': 1,
         'FFT': 1, 'PV_MagAbove': 1, 'IFFT': 1, 'MaxLocalBufs': 1, 'DC': 1,
         'BinaryOpUGen': 1, 'UnaryOpUGen': 1, 'MulAdd': 1, 'Sum3': 1,
@@ -222,6 +276,32 @@ class RefBackend:
         r = 2 if rate == 'ar' else 1
         return mc(lambda b: self._unit('In', r, 2, [b]), [bus])
 
+    def bin(self, kind, bus, lag):
+        """The other bus readers; `lag` is only used by LagIn."""
+        if kind == 'InFeedback':
+            return mc(lambda b: self._unit('InFeedback', 2, 2, [b]), [bus])
+        if kind == 'LagIn':
+            return mc(lambda b, l: self._unit('LagIn', 1, 2, [b, l]),
+                      [bus, lag])
+        if kind == 'InTrig':
+            return mc(lambda b: self._unit('InTrig', 1, 2, [b]), [bus])
+        if kind in ('LocalIn.ar', 'LocalIn.kr'):
+            # one default value per channel (a single one is repeated); the
+            # default list is a constructor argument, it does not expand
+            r = 2 if kind.endswith('ar') else 1
+            if isinstance(bus, list):
+                raise IllTyped('LocalIn default list: not decided here')
+            return self._unit('LocalIn', r, 2, [bus, bus])
+        if kind == 'SoundIn':
+            # In.ar(NumOutputBuses.ir + bus, 1)
+            def f(b):
+                n = self._one('NumOutputBuses', 0, [], pure=True)
+                return self._unit('In', 2, 1, [self._binop('sum', n, b)])[0]
+            if isinstance(bus, list):
+                raise IllTyped('SoundIn bus list: not decided here')
+            return f(bus)
+        raise IllTyped(f'bus reader {kind}')
+
     def pan(self, x, level):
         def f(x, level):
             self._need_audio(x, 'Pan2.ar')
@@ -326,8 +406,10 @@ class RefBackend:
         return mc(lambda c, w: self._one('IFFT', 2, [c, 0.0, w]),
                   [chain, winsize])
 
-    def out(self, bus, chans, force=None):
+    def out(self, bus, chans, force=None, cls='Out', xfade=None):
         """chans: list of channel values (each a Ch or a nested list)."""
+        if cls not in OUT_FIXED:
+            raise IllTyped(f'output class {cls}')
         fl = [c for x in chans for c in flat(x)]
         if not fl:
             raise IllTyped('output without channels')
@@ -337,12 +419,15 @@ class RefBackend:
         if force == 'ar' and not audio:
             raise IllTyped('control-rate signal into an audio-rate output')
         rate = 'ar' if (audio or force == 'ar') else 'kr'
+        if cls == 'OffsetOut' and rate == 'kr':
+            raise IllTyped('OffsetOut has no control-rate form')
         self.plan.append(rate)
         r = 2 if rate == 'ar' else 1
+        fixed = {0: [], 1: [bus], 2: [bus, xfade]}[OUT_FIXED[cls]]
 
-        def f(bus, *ch):
-            self._unit('Out', r, 0, [bus] + list(ch))
-        mc(f, [bus] + list(chans))
+        def f(*args):
+            self._unit(cls, r, 0, list(args))
+        mc(f, fixed + list(chans))
         return rate
 
 
@@ -386,6 +471,8 @@ def execute(prog, be):
             v = be.sin('ar', [[A(0, t0), tag(prog, k, 1)], tag(prog, k, 2)])
         elif op == 'in':
             v = be.inn(st[1], A(0, t0))
+        elif op == 'bin':
+            v = be.bin(st[1], A(0, t0), tag(prog, k, 1))
         elif op == 'pan':
             v = be.pan(A(0, ref(st[1])), A(1, t0))
         elif op == 'mul':
@@ -439,6 +526,7 @@ def execute(prog, be):
     sig = [i for i, st in enumerate(stmts)
            if vals[i] is not None and SIGNAL_RESULT.get(st[0], False)]
     mode = prog['outs']
+    outcls = prog.get('outcls', 'Out')
     calls = []          # one channel array per output call
     if mode in ('last', 'gatebus', 'force_ar'):
         if sig:
@@ -460,20 +548,24 @@ def execute(prog, be):
         # array of one
         chans = list(chans) if isinstance(chans, list) else [chans]
         bus = env['gate'] if mode == 'gatebus' else tag(prog, n + oi)
+        xfade = tag(prog, n + oi, 1)
         if fault and fault.get('at') == 'out' and fault.get('index') == oi:
             fv = be.fault_value(fault['value'], tag(prog, n + oi, 3))
             if fault['slot'] == 'bus':
                 bus = fv
+            elif fault['slot'] == 'xfade':
+                xfade = fv
             else:
                 chans[fault['slot'] % len(chans)] = fv
-        be.out(bus, chans, 'ar' if mode == 'force_ar' else None)
+        be.out(bus, chans, 'ar' if mode == 'force_ar' else None, outcls,
+               xfade)
     return vals
 
 
 # statements whose value is a signal that the output options may use
 SIGNAL_RESULT = {'sin': True, 'noise': True, 'nest': True, 'in': True,
-                 'pan': True, 'mul': True, 'add': True, 'mul2': True,
-                 'lpf': True, 'sel': True, 'par': True, 'bufrd': True,
+                 'bin': True, 'pan': True, 'mul': True, 'add': True,
+                 'mul2': True, 'lpf': True, 'sel': True, 'par': True, 'bufrd': True,
                  'ifft': True, 'add2': True, 'madd': True, 'sum3': True,
                  'num': True, 'sinx': True}
 
@@ -501,12 +593,14 @@ def interpret(prog):
     roots = be.roots
     outs_desc, ins_desc = [], []
     for _, t in roots:
-        if t[1] == 'Out':
-            bus = t[4][0]
-            outs_desc.append([RATE_NAME[t[2]], len(t[4]) - 1,
-                              _start(bus), 'Out'])
-        elif t[1] == 'In':
-            ins_desc.append([RATE_NAME[t[2]], t[3], _start(t[4][0]), 'In'])
+        if t[1] in OUT_FIXED:
+            nf = OUT_FIXED[t[1]]
+            outs_desc.append([RATE_NAME[t[2]], len(t[4]) - nf,
+                              _start(t[4][0]) if nf else '-', t[1]])
+        elif t[1] in IN_CLASSES:
+            ins_desc.append([RATE_NAME[t[2]], t[3],
+                             _start(t[4][0]) if t[1] != 'LocalIn' else '-',
+                             t[1]])
     # non-triviality
     stmts = prog['stmts']
     ops = [s[0] for s in stmts]
@@ -518,8 +612,12 @@ def interpret(prog):
     for w in wf:
         if any(i < w for i in unitops) and (any(i > w for i in unitops)):
             flags.add('width-first-between')
-    if any(o in ('in', 'pan') for o in ops):
+    if any(o in ('in', 'pan', 'bin') for o in ops):
         flags.add('multi-output')
+    if prog.get('outcls', 'Out') != 'Out' or 'bin' in ops:
+        flags.add('bus-unit-class')
+    if prog.get('params', 'none') not in ('none', 'gate', 'mixed'):
+        flags.add('control-route')
     if 'nest' in ops or any(
             s[0] == 'pan' and _is_multi(stmts, s[1]) for s in stmts):
         flags.add('nested-expansion')
@@ -541,7 +639,7 @@ def interpret(prog):
 
 def _is_multi(stmts, a):
     j = int(a[1:])
-    return stmts[j][0] in ('in', 'pan', 'nest')
+    return stmts[j][0] in ('in', 'pan', 'nest', 'bin')
 
 
 def _start(bus_term):
@@ -557,7 +655,8 @@ def expected_controls(variant):
     out = {}
     for name, default, kind in param_spec(variant):
         d = list(default) if isinstance(default, tuple) else [default]
-        out[name] = (KIND_RATE[kind], [float(x) for x in d])
+        out[name] = (KIND_RATE[kind],
+                     [None if x is None else float(x) for x in d])
     return out
 
 
@@ -616,12 +715,19 @@ def form_problems(d):
                 bad.append(('arith-rate-not-max-of-inputs',
                             f'unit {i} {name} rate {rate}, input rates '
                             f'{inr}'))
-        if name == 'Out':
-            if not inr:
-                bad.append(('out-without-bus', f'unit {i}'))
-            elif rate == 2 and any(r != 2 for r in inr[1:]):
+        if name in OUT_FIXED:
+            nf = OUT_FIXED[name]
+            if len(inr) < nf:
+                bad.append(('out-without-bus',
+                            f'unit {i} {name} has {len(inr)} inputs, the '
+                            f'class has {nf} before the channels'))
+            elif rate == 2 and any(r != 2 for r in inr[nf:]):
                 bad.append(('audio-out-fed-non-audio',
-                            f'unit {i} Out.ar channel rates {inr[1:]}'))
+                            f'unit {i} {name}.ar channel rates {inr[nf:]}'))
+        if name == 'LagControl' and len(inr) != len(u['outputs']):
+            bad.append(('lag-count-differs-from-control-count',
+                        f'unit {i} LagControl has {len(u["outputs"])} '
+                        f'controls and {len(inr)} lag inputs'))
         if name in ('LPF', 'Pan2') and rate == 2 and inr and inr[0] != 2:
             bad.append(('audio-unit-fed-non-audio',
                         f'unit {i} {name}.ar first input rate {inr[0]}'))
@@ -796,6 +902,11 @@ def compare(prog, ref, d):
     _, byname = control_table(d)
     wantc = expected_controls(prog.get('params', 'none'))
     byname = {k: v[:2] for k, v in byname.items()}
+    for k, (r, dv) in wantc.items():
+        # a default the reference does not decide: any value of that slot
+        if k in byname and None in dv and len(byname[k][1]) == len(dv):
+            got = byname[k][1]
+            wantc[k] = (r, [g if w is None else w for w, g in zip(dv, got)])
     if {k: list(v) for k, v in byname.items()} != \
             {k: list(v) for k, v in wantc.items()}:
         dis.append(('parameters-differ-from-signature',
